@@ -16,10 +16,9 @@ Definition macs (ls : list lease) : list N := map l_mac ls.
 Definition live (m : N) : bool := negb (is_blocklisted m).
 Definition cmacs (ls : list lease) : list N := filter live (macs ls).
 
-(** Dynamic leases carry 6-byte addresses (messages, block-listing), static
-    ones what ValidateMAC accepts. *)
-Definition mac_ok (l : lease) : Prop :=
-  if l_static l then valid_mac (l_mac l) = true else mac_len (l_mac l) = 6.
+(** Every lease carries a hardware address that net.ParseMAC reads back from
+    the file (6, 8 or 20 bytes: what ValidateMAC accepts for reservations). *)
+Definition mac_ok (l : lease) : Prop := valid_mac (l_mac l) = true.
 
 (** About the lease list alone. *)
 Record ListInv (c : conf) (L : list lease) : Prop := {
@@ -72,16 +71,14 @@ Proof. unfold cmacs. apply filter_In. Qed.
 Lemma not_in_cmacs m L : ~ In m (macs L) -> ~ In m (cmacs L).
 Proof. rewrite in_cmacs. tauto. Qed.
 
-Lemma blocklist_mac_len : mac_len blocklist_mac = 6.
+Lemma blocklist_mac_valid : valid_mac blocklist_mac = true.
 Proof. reflexivity. Qed.
 Lemma blocklist_mac_dead : live blocklist_mac = false.
 Proof. reflexivity. Qed.
 Lemma len6_valid m : mac_len m = 6 -> valid_mac m = true.
 Proof. unfold valid_mac. intros ->. reflexivity. Qed.
 Lemma mac_ok_valid l : mac_ok l -> valid_mac (l_mac l) = true.
-Proof. unfold mac_ok. destruct (l_static l); auto using len6_valid. Qed.
-Lemma copy_mac_same dst src : mac_len dst = mac_len src -> copy_mac dst src = src.
-Proof. unfold copy_mac. intros ->. rewrite N.eqb_refl. reflexivity. Qed.
+Proof. auto. Qed.
 
 Lemma find_index_some {A} (p : A -> bool) l i a :
   find_index p l = Some (i, a) -> nth_error l i = Some a /\ p a = true.
@@ -189,7 +186,7 @@ Proof.
   - intros l' Hl' Hs. destruct (Thin_in _ _ T _ Hl') as (l & Hl & (E1 & _ & E3)).
     rewrite <- E1. apply D; congruence.
   - intros l' Hl'. destruct (Thin_in _ _ T _ Hl') as (l & Hl & (_ & E2 & E3)).
-    specialize (E l Hl). unfold mac_ok in *. rewrite <- E2, <- E3. exact E.
+    specialize (E l Hl). unfold mac_ok in *. rewrite <- E2. exact E.
 Qed.
 
 Lemma Thin_app_keep P L L' : Thin L L' -> Thin (P ++ L) (P ++ L').
@@ -449,7 +446,7 @@ Lemma expired_dynamic now l : expired now l = true -> l_static l = false.
 Proof. unfold expired. intros H. apply andb_true_iff in H as [H _]. apply negb_true_iff in H. exact H. Qed.
 
 Lemma reserve_inv c now mac s :
-  Inv c s -> mac_len mac = 6 -> ~ In mac (cmacs (leases s)) -> Inv c (fst (reserve c now mac s)).
+  Inv c s -> valid_mac mac = true -> ~ In mac (cmacs (leases s)) -> Inv c (fst (reserve c now mac s)).
 Proof.
   intros I Hlen Hmac. unfold reserve.
   destruct (next_ip c s) as [ip|] eqn:En.
@@ -460,10 +457,6 @@ Proof.
     apply find_index_some in Ef as [Ei Ee]. apply expired_dynamic in Ee.
     destruct (nth_error_split' _ _ _ Ei) as (l1 & l2 & EL & <-).
     destruct I as [[A B C D E] X K]. rewrite EL in *. rewrite update_nth_split. cbn beta.
-    assert (El : mac_len (l_mac l) = 6).
-    { assert (Hl : In l (l1 ++ l :: l2)) by (rewrite in_app_iff; cbn; auto).
-      specialize (E l Hl). unfold mac_ok in E. rewrite Ee in E. exact E. }
-    rewrite copy_mac_same by congruence.
     assert (Eips : ips (l1 ++ l :: l2) = ips (l1 ++ set_mac l mac :: l2)).
     { rewrite !ips_app; reflexivity. }
     split; cbn; auto.
@@ -476,14 +469,14 @@ Proof.
           [apply D|apply (D l)|apply D]; rewrite in_app_iff; cbn; auto.
       * intros y Hy. apply in_app_iff in Hy as [Hy|[<-|Hy]];
           [apply E; rewrite in_app_iff; auto| |apply E; rewrite in_app_iff; cbn; auto].
-        unfold mac_ok. cbn. rewrite Ee. exact Hlen.
+        unfold mac_ok. cbn. exact Hlen.
     + eapply IdxInv_same_ips; eauto.
 Qed.
 
 (** The lease reserveLease hands out carries the client's address and is a
     dynamic one. *)
 Lemma reserve_at_mac c now mac s :
-  Inv c s -> mac_len mac = 6 -> forall i, snd (reserve c now mac s) = RsAt i ->
+  Inv c s -> valid_mac mac = true -> forall i, snd (reserve c now mac s) = RsAt i ->
   exists l, nth_error (leases (fst (reserve c now mac s))) i = Some l /\ l_mac l = mac /\ l_static l = false.
 Proof.
   intros I Hlen i. unfold reserve. destruct (next_ip c s) as [ip|].
@@ -493,8 +486,6 @@ Proof.
   - destruct (find_expired now (leases s)) as [[j l]|] eqn:Ef; cbn; [|discriminate].
     intros E; inversion E; subst. apply find_index_some in Ef as [Ei Ee]. apply expired_dynamic in Ee.
     eexists. split; [apply nth_error_update_nth; eauto|]. cbn. split; auto.
-    apply copy_mac_same. pose proof I as [[_ _ _ _ E'] _ _].
-    specialize (E' l (nth_error_In _ _ Ei)). unfold mac_ok in E'. rewrite Ee in E'. congruence.
 Qed.
 
 Lemma reserve_at c now mac s i :
@@ -544,8 +535,7 @@ Proof.
         [apply D|apply (D l)|apply D]; rewrite in_app_iff; cbn; auto.
     + intros y Hy. apply in_app_iff in Hy as [Hy|[<-|Hy]];
         [apply E; rewrite in_app_iff; auto| |apply E; rewrite in_app_iff; cbn; auto].
-      unfold mac_ok, l'. cbn [l_static l_mac].
-      destruct (l_static l); [apply len6_valid|]; apply blocklist_mac_len.
+      unfold mac_ok, l'. cbn [l_mac]. apply blocklist_mac_valid.
   - eapply IdxInv_same_ips; [exact Eips|]. destruct X as [P Q]. split; [exact P|exact Q].
 Qed.
 
@@ -565,7 +555,7 @@ Proof.
 Qed.
 
 Lemma allocate_inv c now busy mac : forall fuel s,
-  Inv c s -> mac_len mac = 6 -> ~ In mac (cmacs (leases s)) ->
+  Inv c s -> valid_mac mac = true -> ~ In mac (cmacs (leases s)) ->
   Inv c (fst (allocate fuel c now busy mac s)).
 Proof.
   induction fuel as [|f IH]; intros s I Hlen Hmac; cbn [allocate]; auto.
@@ -581,7 +571,7 @@ Qed.
 (** The lease allocateLease hands out carries the client's address, is a
     dynamic one and its address does not answer the probe. *)
 Lemma allocate_at c now busy mac : forall fuel s,
-  Inv c s -> mac_len mac = 6 -> ~ In mac (cmacs (leases s)) ->
+  Inv c s -> valid_mac mac = true -> ~ In mac (cmacs (leases s)) ->
   forall i, snd (allocate fuel c now busy mac s) = RsAt i ->
   exists l, nth_error (leases (fst (allocate fuel c now busy mac s))) i = Some l /\ l_mac l = mac /\
             l_static l = false /\ mem_ip (l_ip l) busy = false.
@@ -674,7 +664,7 @@ Proof.
     destruct (F l (or_introl eq_refl)).
     eapply add_lease_inv; eauto; rewrite <- ?E1, <- ?E2, <- ?E3; auto.
     + apply G; cbn; auto.
-    + unfold mac_ok. rewrite <- E2, <- E3. apply O; cbn; auto.
+    + unfold mac_ok. rewrite <- E2. apply O; cbn; auto.
   - intros; apply G; cbn; auto.
   - intros; apply O; cbn; auto.
   - intros y Hy. unfold load_step. destruct (valid_mac (l_mac l)); [|apply F; cbn; auto].
@@ -711,13 +701,14 @@ Definition op_mac (o : op) : option N :=
   | _ => None
   end.
 
-(** What is assumed of the operations: DHCP messages carry 6-byte hardware
-    addresses, and nobody (message or reservation) uses the all-zero address,
-    which the server keeps for block-listed addresses. *)
+(** What is assumed of the operations: DHCP messages carry hardware addresses
+    of 6, 8 or 20 bytes (the lengths the lease file can hold), and nobody
+    (message or reservation) uses the all-zero address, which the server
+    keeps for block-listed addresses. *)
 Definition op_ok (o : op) : Prop :=
   match o with
   | ODiscover m | ORequest m _ _ _ _ | ODecline m _ _ | ORelease m _ _ =>
-      mac_len m = 6 /\ live m = true
+      valid_mac m = true /\ live m = true
   | OStaticAdd m _ _ | OStaticUpdate m _ _ | OStaticRemove m _ _ => live m = true
   | _ => True
   end.
@@ -725,7 +716,7 @@ Definition op_ok (o : op) : Prop :=
 Definition hist_ok (h : list event) : Prop := Forall (fun p : event => op_ok (snd p)) h.
 
 Lemma discover_inv c now busy mac s :
-  Inv c s -> mac_len mac = 6 -> Inv c (fst (discover c now busy mac s)).
+  Inv c s -> valid_mac mac = true -> Inv c (fst (discover c now busy mac s)).
 Proof.
   intros I Hlen. unfold discover.
   destruct (find_lease mac (leases s)) as [[i l]|] eqn:Ef; cbn; [apply store_inv; auto|].
@@ -744,7 +735,7 @@ Proof.
 Qed.
 
 Lemma decline_inv c now busy mac reqip ci s :
-  Inv c s -> mac_len mac = 6 -> Inv c (fst (decline c now busy mac reqip ci s)).
+  Inv c s -> valid_mac mac = true -> Inv c (fst (decline c now busy mac reqip ci s)).
 Proof.
   intros I Hlen. unfold decline.
   destruct (find_index _ (leases s)) as [[oi old]|] eqn:Ef; cbn; [|apply store_inv; auto].
@@ -1112,7 +1103,7 @@ Proof.
 Qed.
 
 Lemma reserve_full c now mac s :
-  FullInv c s -> mac_len mac = 6 -> ~ In mac (cmacs (leases s)) ->
+  FullInv c s -> valid_mac mac = true -> ~ In mac (cmacs (leases s)) ->
   FullInv c (fst (reserve c now mac s)).
 Proof.
   intros F Hlen Hmac. pose proof (reserve_inv c now mac s (fi_inv _ _ F) Hlen Hmac) as R.
@@ -1154,7 +1145,7 @@ Proof.
 Qed.
 
 Lemma allocate_full c now busy mac : forall fuel s,
-  FullInv c s -> mac_len mac = 6 -> ~ In mac (cmacs (leases s)) ->
+  FullInv c s -> valid_mac mac = true -> ~ In mac (cmacs (leases s)) ->
   FullInv c (fst (allocate fuel c now busy mac s)).
 Proof.
   induction fuel as [|f IH]; intros s F Hlen Hmac; cbn [allocate]; auto.
@@ -1190,7 +1181,7 @@ Proof.
     destruct (F l (or_introl eq_refl)).
     eapply add_lease_full; eauto; rewrite <- ?E1, <- ?E2, <- ?E3; auto.
     + apply G; cbn; auto.
-    + unfold mac_ok. rewrite <- E2, <- E3. apply O; cbn; auto.
+    + unfold mac_ok. rewrite <- E2. apply O; cbn; auto.
   - intros; apply G; cbn; auto.
   - intros; apply O; cbn; auto.
   - intros y Hy. unfold load_step. destruct (valid_mac (l_mac l)); [|apply F; cbn; auto].
@@ -1212,7 +1203,7 @@ Proof.
 Qed.
 
 Lemma discover_full c now busy mac s :
-  FullInv c s -> mac_len mac = 6 -> FullInv c (fst (discover c now busy mac s)).
+  FullInv c s -> valid_mac mac = true -> FullInv c (fst (discover c now busy mac s)).
 Proof.
   intros I Hlen. unfold discover.
   destruct (find_lease mac (leases s)) as [[i l]|] eqn:Ef; cbn; [apply store_full; auto|].
@@ -1231,7 +1222,7 @@ Proof.
 Qed.
 
 Lemma decline_full c now busy mac reqip ci s :
-  FullInv c s -> mac_len mac = 6 -> FullInv c (fst (decline c now busy mac reqip ci s)).
+  FullInv c s -> valid_mac mac = true -> FullInv c (fst (decline c now busy mac reqip ci s)).
 Proof.
   intros I Hlen. unfold decline.
   destruct (find_index _ (leases s)) as [[oi old]|] eqn:Ef; cbn; [|apply store_full; auto].
@@ -1584,7 +1575,7 @@ Proof. intros Ha Hb E. congruence. Qed.
 (** While some pool address is in no lease and does not answer the probe,
     allocateLease hands out a pool address that was in no lease. *)
 Lemma allocate_live c now busy mac ip : forall fuel s,
-  Inv c s -> mac_len mac = 6 -> ~ In mac (cmacs (leases s)) ->
+  Inv c s -> valid_mac mac = true -> ~ In mac (cmacs (leases s)) ->
   in_pool c ip = true -> ~ In ip (ips (leases s)) -> mem_ip ip busy = false ->
   (length (free_offs c s) < fuel)%nat ->
   exists i, snd (allocate fuel c now busy mac s) = RsAt i /\
@@ -1631,7 +1622,7 @@ Qed.
     pool address that was in no lease and does not answer the probe, and that
     address is now reserved for the client. *)
 Theorem offer_liveness c s now busy mac ip :
-  Inv c s -> mac_len mac = 6 -> ~ In mac (macs (leases s)) ->
+  Inv c s -> valid_mac mac = true -> ~ In mac (macs (leases s)) ->
   in_pool c ip = true -> ~ In ip (ips (leases s)) -> mem_ip ip busy = false ->
   exists ip' s', discover c now busy mac s = (s', ROk 2 ip') /\
     in_pool c ip' = true /\ ~ In ip' (ips (leases s)) /\ mem_ip ip' busy = false /\
@@ -1884,7 +1875,7 @@ Proof.
   apply inv_reachable; auto.
 Qed.
 
-Theorem liveness_reachable : forall c h now busy mac ip, hist_ok h -> mac_len mac = 6 ->
+Theorem liveness_reachable : forall c h now busy mac ip, hist_ok h -> valid_mac mac = true ->
   let s := run c h empty_state in
   ~ In mac (map l_mac (leases s)) ->
   in_pool c ip = true -> ~ In ip (map l_ip (leases s)) -> mem_ip ip busy = false ->
@@ -1898,7 +1889,7 @@ Qed.
 (** An address that answers the probe is never handed to a client that did
     not hold it already. *)
 Theorem discover_not_busy c s now busy mac s' mt yi :
-  Inv c s -> mac_len mac = 6 -> ~ In mac (macs (leases s)) ->
+  Inv c s -> valid_mac mac = true -> ~ In mac (macs (leases s)) ->
   discover c now busy mac s = (s', ROk mt yi) -> mem_ip yi busy = false.
 Proof.
   intros I Hlen Hm. unfold discover.
@@ -1913,7 +1904,7 @@ Proof.
   destruct (R _ eq_refl) as (l & El & _ & _ & Eb). unfold ip_at. rewrite El. exact Eb.
 Qed.
 
-Theorem discover_not_busy_reachable : forall c h now busy mac s' mt yi, hist_ok h -> mac_len mac = 6 ->
+Theorem discover_not_busy_reachable : forall c h now busy mac s' mt yi, hist_ok h -> valid_mac mac = true ->
   let s := run c h empty_state in
   ~ In mac (map l_mac (leases s)) ->
   step c s now busy (ODiscover mac) = (s', ROk mt yi) -> mem_ip yi busy = false.
@@ -1989,7 +1980,7 @@ Qed.
 
 Lemma premises_satisfiable :
   valid_conf example_conf /\ hist_ok example_history /\
-  mac_len (mac6 9) = 6 /\ is_blocklisted (mac6 9) = false /\
+  valid_mac (mac6 9) = true /\ is_blocklisted (mac6 9) = false /\
   let s := run example_conf example_history empty_state in
   length (leases s) = 4%nat /\
   NamesStable (leases s) /\
